@@ -324,6 +324,8 @@ func (ctx *_builtinJSON_stringifyContext) str(key Value, holder *Object) bool {
 			switch pValue := o1.pValue.(type) {
 			case valueInt, valueFloat:
 				value = o.ToNumber()
+			case *Symbol:
+				// a Symbol object is not unwrapped, it is serialised like any other object
 			default:
 				value = pValue
 			}
